@@ -30,9 +30,12 @@ def generate(rng: random.Random, tier: str):
     for lbk, ubk in combos:
         if lbk == 'posinf' or ubk == 'neginf':
             continue
-        for beta in ([0.3, 1.0, 2.0, 7.0] if thorough else [rng.choice([0.3, 1.0]), rng.choice([2.0, 7.0])]):
-            cases.append({'kind': 'constraint', 'lb': lbk, 'ub': ubk, 'beta_sigmoid': beta, 'beta_softplus': rng.choice([0.3, 1.0, 2.0, 7.0]) if not thorough else beta,
-                          'seed': rng.randrange(1 << 30)})
+        betas = [0.3, 1.0, 2.0, 7.0]
+        # the two steepness parameters are independent: always at least one pair with different values per bound combination
+        pairs = [(a, b) for a in betas for b in betas] if thorough else [(rng.choice([0.3, 1.0]), rng.choice([2.0, 7.0])), (rng.choice([2.0, 7.0]), rng.choice([0.3, 1.0])),
+                                                                         (rng.choice(betas), rng.choice(betas))]
+        for bs_, bp_ in pairs:
+            cases.append({'kind': 'constraint', 'lb': lbk, 'ub': ubk, 'beta_sigmoid': bs_, 'beta_softplus': bp_, 'seed': rng.randrange(1 << 30)})
     return cases
 
 
@@ -179,7 +182,9 @@ def run_constraint(case, drv) -> Outcome:
         corr = f'{cfg}: forward impl {y.tolist()[:3]} model {my[:3]}'
     mi = drv.call({**req, 'inverse': True, 'x': [f2bits(float(v)) for v in y]})
     mx = [bits2f(b) for b in mi['out']]
-    if corr is None and any(not (abs(float(a) - b) <= 1e-8 * (1 + abs(b))) for a, b in zip(xb, mx) if math.isfinite(b)):
+    # conditioning-aware (see slope above): two correct evaluations of the inverse differ by eps*|y|/slope where forward saturates
+    if corr is None and any(not (abs(float(a) - b) <= 1e-8 * (1 + abs(b)) + 8 * 2.3e-16 * (1 + abs(float(yy))) / max(float(sl), 1e-300))
+                            for a, b, yy, sl in zip(xb, mx, y, slope) if math.isfinite(b)):
         corr = f'{cfg}: inverse impl {xb.tolist()[:3]} model {mx[:3]}'
     # property-level oracle
     lo = -math.inf if lb is None else lb
